@@ -21,7 +21,8 @@ BOUNDS = {
 OUTSIDE = "graphs with 7+ vertices; orderings outside the block reduction for larger clique lists; self-loops (excluded by the property)"
 ASSUMPTIONS = [
     "block reduction (only when n! is over budget): the shuffled list is constrained to list the cliques grouped by size in ASCENDING size order "
-    "(the adversarial interleaving for an implementation that forgets to sort by size), every order inside the classes of size >= 3 is explored, "
+    "(the adversarial interleaving for an implementation that forgets to sort by size), every order inside the classes of size >= 3 with at most 4 "
+    "members is explored (larger classes: every rotation of the class plus its reversal), "
     "classes of size 1 and of size 2 with more than 3 members are explored in identity and reversed order only (2-cliques are pairwise edge-disjoint, "
     "so their relative order can only move ids). Exact for any implementation that orders by size after shuffling.",
 ]
@@ -51,6 +52,14 @@ def configs(tier):
     # triangles bridged by another triangle: fixed part plus symbolic pairs
     cfgs.append({"name": "n7-bridged-triangles-max0", "n": 7, "max_size": 0, "tier": tier,
                  "fixed_edges": [(0, 1), (0, 2), (1, 2), (3, 4), (3, 5), (4, 5), (2, 3)], "free_edges": [(2, 6), (3, 6), (1, 6), (4, 6)]})
+    # two 4-cliques sharing an edge that is a side of one and a chord of the other (in member order), plus symbolic pairs
+    k4 = lambda vs: [tuple(sorted(p)) for p in itertools.combinations(vs, 2)]
+    cfgs.append({"name": "n6-two-K4-sharing-an-edge-max0", "n": 6, "max_size": 0, "tier": tier,
+                 "fixed_edges": sorted(set(k4([0, 1, 2, 3]) + k4([0, 2, 4, 5]))), "free_edges": [(1, 4), (3, 5)]})
+    # vertex ids with gaps (3v+2): ids are not positions
+    for ms in (0, 3):
+        cfgs.append({"name": f"n4-max{ms}-gapped-labels", "n": 4, "max_size": ms, "maxe": 6, "tier": tier, "gap": True})
+    cfgs.append({"name": "n5-max0-gapped-labels", "n": 5, "max_size": 0, "maxe": 5, "tier": tier, "gap": True})
     if not q:
         for ms in (0, 3):
             cfgs.append({"name": f"n6-e7-max{ms}", "n": 6, "max_size": ms, "maxe": 7, "tier": tier})
@@ -73,13 +82,20 @@ def make_policy(limit):
             idxs = classes[size]
             block = ps[pos:pos + len(idxs)]
             pos += len(idxs)
-            if size >= 3 or (size == 2 and len(idxs) <= 3) or len(idxs) == 1:
+            if (size >= 3 and len(idxs) <= 4) or (size == 2 and len(idxs) <= 3) or len(idxs) == 1:
                 for p in block:
                     ctx.assume(any_(p == i for i in idxs))
+            elif size >= 3:
+                # a large class of big cliques: every member first once (rotations of the class) plus the reversed order
+                m = len(idxs)
+                rot = ctx.fork_int(ctx.int(ctx.uniq(f"rot{size}"), 0, m))
+                for j, p in enumerate(block):
+                    ctx.assume_raw(p.e == (idxs[m - 1 - j] if rot == m else idxs[(j + rot) % m]))
             else:
                 rev = ctx.bool(ctx.uniq(f"rev{size}"))
+                revc = ctx.fork_bool(rev)
                 for j, p in enumerate(block):
-                    ctx.assume(p == ite(rev, idxs[len(idxs) - 1 - j], idxs[j]))
+                    ctx.assume_raw(p.e == (idxs[len(idxs) - 1 - j] if revc else idxs[j]))
     return policy
 
 
@@ -118,8 +134,13 @@ def path(ctx, cfg):
         edges = [p for p, b in zip(pairs, bits) if ctx.fork_bool(b)]
     G = nx.Graph()
     order = cfg.get("order", "asc")
+    nodes = list(range(n))
+    if cfg.get("gap"):
+        edges = [(3 * a + 2, 3 * b + 2) for a, b in edges]
+        pairs = [(3 * a + 2, 3 * b + 2) for a, b in pairs]
+        nodes = [3 * v + 2 for v in nodes]
     if order == "asc":
-        G.add_nodes_from(range(n))
+        G.add_nodes_from(nodes)
         G.add_edges_from(edges)
     elif order == "desc":
         G.add_nodes_from(reversed(range(n)))
@@ -155,7 +176,7 @@ def path(ctx, cfg):
         if rec["fn"] == "shuffle":
             order = [ctx.fork_int(p) for p in rec["perm"]]
     desc += f" shuffle={order if order is None or len(order) < 40 else 'identity' if order[0] == 0 else 'reversed'}"
-    same = sorted(out.nodes()) == list(range(n)) and sorted(map(sorted, out.edges())) == sorted(map(list, edges))
+    same = sorted(out.nodes()) == sorted(nodes) and sorted(map(sorted, out.edges())) == sorted(map(list, edges))
     ctx.require(same, "graph-unchanged", f"{desc}: returned graph has nodes {sorted(out.nodes())} edges {sorted(map(sorted, out.edges()))}", twin=(not same) if edges else None)
     labels = {}
     unl = []
